@@ -236,6 +236,43 @@ def encode_interleaved(rng, stats, nrounds):
     return bytes(out), expect, overlapped
 
 
+def encode_alternating_cadence(rng, stats):
+    """several chunk streams, each carrying a steady cadence (same type, stream, length and timestamp step, so that a
+    conformant sender compresses message starts down to type 3), whole messages alternating between the streams WITHOUT
+    overlapping; lengths are chosen around and above the chunk size so that type-3-started messages span chunks.
+    returns (bytes, expected messages)"""
+    s = Sender(rng, stats)
+    out = bytearray()
+    expect = []
+    k = rng.range(2, 3)
+    csids = []
+    while len(csids) < k:
+        c = pick_csid(rng)
+        if c not in csids:
+            csids.append(c)
+    cad = {}
+    for c in csids:
+        ln = rng.choice([s.cs + 1, 2 * s.cs, 2 * s.cs + 1, 3 * s.cs + 5, s.cs - 1, 1, rng.range(1, 500)])
+        cad[c] = dict(typ=rng.choice([8, 9, 18]), msid=rng.choice([1, 1, 7]), ln=ln,
+                      step=rng.choice([0, 20, 40, 0xFFFFFF, 0x1000000]), ts=rng.choice([0, 1000, 0xFFFFF0, M32 - 100]))
+    n = 0
+    for _ in range(rng.range(3, 7)):
+        order = list(csids)
+        if rng.chance(1, 2):
+            order.reverse()
+        for c in order:
+            if rng.chance(1, 6):
+                continue
+            d = cad[c]
+            d["ts"] = (d["ts"] + d["step"]) % M32
+            data = bytes(((n * 31 + j * 7 + 3) & 0xff) for j in range(d["ln"]))
+            n += 1
+            for ch in s.chunks_of(c, d["typ"], d["msid"], d["ts"], data, style=rng.choice([0, 1])):
+                out += ch
+            expect.append((d["typ"], d["msid"], d["ts"], data))
+    return bytes(out), expect
+
+
 def mutate_stream(rng, b):
     b = bytearray(b)
     if not b:
